@@ -7,7 +7,8 @@ QProbe == -4..4
 QSpell == {"num"}
 \* thorough exhaustive: up to three items
 \* generated: limits around spelling and sign boundaries, every spelling; probes = limits and neighbours
-GLim == {-70000, -256, -17, -1, 0, 1, 9, 10, 13, 48, 65, 97, 255, 256, 70000}
+\* (34, 39, 92: the quote characters and the backslash, which need the other quote / an escape when written as text)
+GLim == {-70000, -256, -17, -1, 0, 1, 9, 10, 13, 34, 39, 48, 65, 92, 97, 255, 256, 70000}
 GProbe == UNION {{n - 1, n, n + 1} : n \in GLim}
 GSpell == {"num", "name", "str"}
 \* decimal twin: the integer n stands for n/4; limits are halves in -2.0..2.0, probes quarter steps
